@@ -1,7 +1,7 @@
 (** C12 -- The tag/ref directory is a faithful persistent map; new refs are never in use.
     Property theorems only; each is closed by [exact] of a lemma from DDBvProofs.v / DDProofs.v.
     M = DDModel.v / DDBvModel.v (hfiledd.c, bitvect.c as the code performs them), S = DDSpec.v (finite map). *)
-From Coq Require Import ZArith List Bool Permutation.
+From Coq Require Import ZArith List Bool Permutation Lia.
 Require Import H4.gen.Gen_DD H4.DDBvModel H4.DDBvProofs H4.DDSpec H4.DDModel H4.DDProofs.
 Import ListNotations.
 Local Open Scope Z_scope.
@@ -141,7 +141,7 @@ Example ex_index_ok : index_ok ex_state.
 Proof.
   intros p Hp Hl. change (length (m_slots ex_state)) with 8%nat in Hp.
   do 8 (destruct p as [|p]; [vm_compute in Hl |- *; try discriminate Hl; repeat split; discriminate|]).
-  exfalso. repeat apply Nat.succ_lt_mono in Hp. inversion Hp.
+  exfalso. lia.
 Qed.
 Example ex_newref : snd (hnewref ex_state) = 2 /\ snd (htagnewref ex_state 720) = 2 /\
                     snd (htagnewref ex_state 721) = 1 /\
